@@ -409,6 +409,9 @@ pub fn check(c: &Case, stats: &mut Stats) -> CheckResult {
     if tie_seen {
         stats.label("tie");
     }
+    if c.sets.iter().any(|s| s.len() > 30) {
+        stats.label("input-set-with-more-than-30-terms");
+    }
     if c.sets.iter().any(|s| s.len() > 1) {
         stats.label("multi-term-inputs");
     }
@@ -464,6 +467,14 @@ fn strategy(tier: Tier) -> BoxedStrategy<Case> {
                         }
                     }
                 }
+            }
+            // in one case of eight one input has more terms than an id group stores inline (32-46 further terms
+            // from the part of the fixture the other inputs do not use)
+            if extra[20] == 0 {
+                let j = extra[21] as usize % n;
+                let first = 101 + u32::from(extra[22]) * 60;
+                let count = 32 + u32::from(extra[23]) * 2;
+                sets[j].extend(first..first + count);
             }
             // one input in ten cases is the empty set
             if extra[0] % 10 == 0 {
@@ -546,7 +557,7 @@ impl Property for C17 {
         "C17"
     }
     fn rule(&self) -> String {
-        "Generated: n in 2..=24 (thorough 40) input sets with pairwise different contents, in one case of four overlapping (mostly singletons, some with 2-3 terms, in one case of ten one input is the empty set) over a flat 96-term ontology, handed over as a Vec or as iterators without an exact size hint (filter, chain, map_while); for single/complete/average a generated symmetric table of initial distances (distinct values, or few values so that ties are frequent; shifted so that distances are all positive, mixed-sign, all negative or touch zero; in one case of five some pairs - for n <= 6 sometimes all - are infinitely far apart, +inf or -inf but never both; in one case of three all distances are scaled by 10^e, e in -45..=30, so that they lie far below f32::EPSILON, among the subnormal numbers, or far above 1; one further class scales them so that the largest is 3e38: all finite, but the sum of two distances can exceed f32::MAX); for union a symmetric pseudo-random distance that is a function of the two sets' contents, so merged sets get fresh values. Oracle = validity predicate simulated along the library's own merge choices (ties admit several dendrograms): exactly n-1 merges; each merge joins two live, different clusters (inputs or earlier merges n+k), so every input and intermediate cluster is merged exactly once and one cluster remains; the reported distance equals the pair's current distance bit for bit and no live pair is strictly closer; distances to the new cluster follow the method (min / max / mean of the two parts in f32 / content function of the union); len adds up and is n at the last merge; indicies() is a permutation of 0..n; cluster(), iter(), &linkage and into_cluster() agree, also when read from the back (rev) or from both ends in a generated order of next / next_back calls, with len() equal to the number of merges left at every step; the first callback invocation asks every unordered pair of inputs exactly once (later invocations, which also pair the new set with itself, are not constrained). evaluations = clusterings. Non-trivial = n >= 4 and some merge joins two earlier clusters; distinct by hash of the case.".into()
+        "Generated: n in 2..=24 (thorough 40) input sets with pairwise different contents, in one case of four overlapping (mostly singletons, some with 2-3 terms, in one case of eight one input with 33-47 terms, in one case of ten one input is the empty set) over a flat 96-term ontology, handed over as a Vec or as iterators without an exact size hint (filter, chain, map_while); for single/complete/average a generated symmetric table of initial distances (distinct values, or few values so that ties are frequent; shifted so that distances are all positive, mixed-sign, all negative or touch zero; in one case of five some pairs - for n <= 6 sometimes all - are infinitely far apart, +inf or -inf but never both; in one case of three all distances are scaled by 10^e, e in -45..=30, so that they lie far below f32::EPSILON, among the subnormal numbers, or far above 1; one further class scales them so that the largest is 3e38: all finite, but the sum of two distances can exceed f32::MAX); for union a symmetric pseudo-random distance that is a function of the two sets' contents, so merged sets get fresh values. Oracle = validity predicate simulated along the library's own merge choices (ties admit several dendrograms): exactly n-1 merges; each merge joins two live, different clusters (inputs or earlier merges n+k), so every input and intermediate cluster is merged exactly once and one cluster remains; the reported distance equals the pair's current distance bit for bit and no live pair is strictly closer; distances to the new cluster follow the method (min / max / mean of the two parts in f32 / content function of the union); len adds up and is n at the last merge; indicies() is a permutation of 0..n; cluster(), iter(), &linkage and into_cluster() agree, also when read from the back (rev) or from both ends in a generated order of next / next_back calls, with len() equal to the number of merges left at every step; the first callback invocation asks every unordered pair of inputs exactly once (later invocations, which also pair the new set with itself, are not constrained). evaluations = clusterings. Non-trivial = n >= 4 and some merge joins two earlier clusters; distinct by hash of the case.".into()
     }
     fn assumptions(&self) -> Vec<String> {
         vec![
@@ -561,7 +572,7 @@ impl Property for C17 {
         }
     }
     fn required_labels(&self, _tier: Tier) -> Vec<&'static str> {
-        vec!["nontrivial", "single", "complete", "average", "union", "tie", "multi-term-inputs", "empty-input-set", "input-iterator-without-exact-size", "all-merge-distances-negative", "mixed-sign-distances", "infinite-distance", "all-distances-infinite", "distance-below-epsilon", "distance-above-1e9", "inputs>255", "overlapping-input-sets", "finite-distances-above-half-of-f32-max"]
+        vec!["nontrivial", "single", "complete", "average", "union", "tie", "multi-term-inputs", "empty-input-set", "input-iterator-without-exact-size", "all-merge-distances-negative", "mixed-sign-distances", "infinite-distance", "all-distances-infinite", "distance-below-epsilon", "distance-above-1e9", "inputs>255", "overlapping-input-sets", "finite-distances-above-half-of-f32-max", "input-set-with-more-than-30-terms"]
     }
     fn run_generated(&self, tier: Tier, seed: u64, n: u64, stats: &mut Stats) -> Option<(Value, Failure)> {
         run_typed(strategy(tier), seed, n, stats, check)
